@@ -76,6 +76,13 @@ def line_events(it, o, n0, sentence_names):
 
 def run(chk):
     w = C.world_for(chk)
+    # the normalising mode copies boundaries and tags between the normalised and the original sentence position by position:
+    # it relies on the normaliser mapping every character to exactly one character (shared with C16)
+    from . import c16 as _c16
+    chk.rule("R16.1", "normaliser table: one push per char, default identity, idempotent (shared with C16)")
+    chk.rule("R16.5", "copy sites order (shared with C16)")
+    _c16.normaliser(chk, w)
+    _c16.copy_sites(chk, w)
     for rid, txt in (("R20.1", "per-line output event sequences; sibling loops agree"), ("R20.2", "tag candidates only after fill_tags on the same sentence"),
                      ("R20.3", "pipeline order and flag wiring"), ("R20.4", "evaluate counter tables and metric formulas"), ("R20.5", "error discipline in the tools")):
         chk.rule(rid, txt)
